@@ -20,7 +20,7 @@ ASSUMPTIONS = [
     "real-valued parameters are covered on the finite catalogue + VERIF_SEED-indexed generic reals (cond<=1e3) only",
     "sizes bounded: D,Dx,Dy<=3 (thorough 4), R<=3 (thorough 4)",
 ]
-BOUNDS = {"quick": dict(D=[1, 2, 3], R=[1, 2, 3, 4]), "thorough": dict(D=[1, 2, 3, 4], R=[1, 2, 3, 4])}
+BOUNDS = {"quick": dict(D=[1, 2, 3], R=[1, 2, 3, 4]), "thorough": dict(D=[1, 2, 3, 4, 5], R=[1, 2, 3, 4, 5])}
 BUDGET = {"quick": 600, "thorough": 3600}
 
 
@@ -48,7 +48,7 @@ def run_pdf(shard, ctx):
     tier, seed = shard["tier"], shard["seed"]
     kind, D = shard["kind"], shard["D"]
     diag = "Diag" in kind
-    vis = [0, 1, 2, 100, objs.HARD] if tier == "quick" else [0, 1, 2, 3, 4, 5, 100, 101, 102, objs.HARD]
+    vis = [0, 1, 2, 100, objs.HARD] if tier == "quick" else [0, 1, 2, 3, 4, 5, 100, 101, 102, 103, 104, 105, objs.HARD]
     for R in (BOUNDS[tier]["R"] if not shard.get("large") else [5]):
         for vi in vis:
             tag = ("c13", kind, D, R)
